@@ -6,6 +6,7 @@ mod c10;
 mod common;
 mod host;
 mod mock;
+mod templ;
 
 use common::*;
 use std::path::{Path, PathBuf};
@@ -23,6 +24,7 @@ fn replay_file(comp: &str, path: &Path, out: &mut Out) {
         "reseq" => c09::replay(&desc, &ops, out),
         "codec" => c10::replay(&desc, &ops, out),
         "host" => host::replay(&desc, &ops, out),
+        "templ" => templ::replay(&desc, &ops, out),
         _ => panic!("unknown component"),
     }
 }
@@ -38,6 +40,7 @@ fn main() {
         std::panic::set_hook(Box::new(|_| {}));
         let t = match argv.get(2).map(|s| s.as_str()) {
             Some("KindTable") => c10::table_kind(),
+            Some("TemplTable") => templ::table_templ(),
             _ => {
                 eprintln!("unknown table");
                 std::process::exit(2)
@@ -111,6 +114,7 @@ fn main() {
         "reseq" => c09::run(&args, &mut out),
         "codec" => c10::run(&args, &mut out),
         "host" => host::run(&args, &mut out),
+        "templ" => templ::run(&args, &mut out),
         _ => {
             eprintln!("unknown component {}", comp);
             std::process::exit(2)
